@@ -1,4 +1,6 @@
 import TongoProofs.Lemmas.MerkleCompose
+import TongoProofs.Lemmas.MerkleKeyInj
+import TongoProofs.Lemmas.Sha256Len
 import TongoProofs.Lemmas.MerkleHashmap
 import TongoProofs.C05
 import TongoProofs.Lemmas.BitStringFift
@@ -152,6 +154,37 @@ theorem proof_boc {K : Type} [BEq K] [Hashable K] [LawfulBEq K]
   obtain ⟨info, e, hm, _⟩ := C02core H proof h3 h4
   exact ⟨r, row, child, hp', hroots, r1, r2, r3, by simpa using r5, r4, hc, e1, e2, info,
     by rw [infos_refines H o.table _ r proof hroots, e], hm⟩
+
+/-- **`proof_boc` with its premises about the writer DISCHARGED.** The only hypotheses left are about the hash
+function — 32-byte digests and no collision among the byte strings hashed for the proof (`Spec.allReprs H proof`, a
+finite list) — and that the original tree is within the limits of the bag-of-cells format (`CellOK`: ≤ 1023 bits,
+≤ 4 refs, exotic cells start with their type byte — true of every cell that was parsed or built by the library).
+The presentation of the proof's cells is agent boc's `Order.cellTable proof` (pre-order, no sharing; by
+`C01.serialize_canonical` any other presentation of the same tree gives the same bytes), proved here to be a valid
+layout (structural depth ≤ 1024 because hashing accepted the proof); Go's de-duplication key `goKey` (the
+representation hash) satisfies `KeyInjOn` on it by `C02.reprHash_inj_wfExotic` — Merkle proofs have mask-1 cells and
+pruned branches, which the level-0 lemma of C01 does not cover. Conclusion as in `proof_boc`. -/
+theorem proof_boc_collisionFree (H : List UInt8 → List UInt8) (hH : H32 H) (P : List Nat → Bool) (root proof : Cell)
+    (hp : plain root = true) (hok : Boc.Order.CellOK root) (h : createProof H P root = .ok proof)
+    (cf : CollisionFree H (Spec.allReprs H proof)) :
+    ∃ (o : Boc.Order.Ordered) (bs : Boc.Bytes),
+      Boc.Order.serializeBocModel (Boc.Order.cellTable proof) (Boc.Order.goKey H (Boc.Order.cellTable proof)) [0]
+        false false false = .ok bs ∧
+      (o.table.size < 16777216 → 1 ≤ o.table.size → bs.length < Boc.two63 →
+        ∃ (r : Nat) (row : CellRow) (child : Cell), Boc.parseBoc bs = .ok (o.table, [r]) ∧
+          Table.unfold o.table (o.table.size + 1) r = some proof ∧
+          o.table[r]? = some row ∧ row.ty = tyMerkleProof ∧ row.mask = 0 ∧ row.refs.length = 1 ∧
+          row.bits = Bits.bytesToBits ([3] ++ Spec.hashAt H root 0 ++ be16 (Spec.depthAt root 0)) ∧
+          proof = proofCell (Spec.hashAt H root 0) (Spec.depthAt root 0) child ∧
+          Spec.hashAt H child 0 = Spec.hashAt H root 0 ∧ Spec.depthAt child 0 = Spec.depthAt root 0 ∧
+          ∃ info, (Table.infos H o.table)[r]? = some (.ok info) ∧
+            ∀ l, l ≤ 4 → info.hashAt l = .ok (Spec.hashAt H proof l) ∧ info.depthAt l = .ok (Spec.depthAt proof l)) := by
+  obtain ⟨hv, hu, hk⟩ := proof_presentation H hH P root proof hp hok h cf
+  obtain ⟨o, bs, h1, _, h3⟩ := proof_boc H hH P root proof hp h (Boc.Order.cellTable proof) _ hv hu hk
+  exact ⟨o, bs, h1, h3⟩
+
+/-- the hash function of the driver satisfies `H32` -/
+theorem h32_sha256 : H32 sha256 := Sha256Lemmas.sha256_length
 
 /-- **No panic, and exactly when a proof is produced.** On supported trees `CreateProof` never panics for any
 prune set; it fails only with the depth error (the tree, or the proof cell on top of it, is too deep). -/
@@ -475,6 +508,19 @@ example : (dictLookup 10 8 exDict (Bits.natToBits 8 0x02)).isNone = true := by d
 example : (proveKey toyH 8 exDict (Bits.natToBits 8 0x01)).isOk = true := by decide +kernel
 example : (proveKey toyH 8 exDict (Bits.natToBits 8 0x02)).isErr = true := by decide +kernel
 example : (createProof toyH (fun p => p == [0, 1] || p == [1]) exDict).isOk = true := by decide +kernel
+/-- non-vacuity of `proof_boc_collisionFree` with the REAL SHA-256 (kernel-evaluated test on a literal): for a
+one-entry dictionary the prover returns a proof and SHA-256 has no collision among the representations hashed for it -/
+example :
+    plain (leaf ([true, false, false, false, false, false] ++ Bits.natToBits 8 0x33)) = true ∧
+    (match createProof sha256 (fun _ => false) (leaf ([true, false, false, false, false, false] ++ Bits.natToBits 8 0x33)) with
+     | .ok p => cfCheck sha256 (Spec.allReprs sha256 p)
+     | _ => false) = true := by decide +kernel
+
+/-- the format-limit hypothesis of `proof_boc_collisionFree` on the example dictionary (collision-freedom is the named
+idealisation of the hash function; for the toy hash it does not hold) -/
+example : Boc.Order.CellOK exDict := by
+  simp only [exDict, fork, leaf, Boc.Order.CellOK, Boc.Order.CellOKL]
+  decide +kernel
 /-- hypotheses of `value_revealed_dict` on agent dict's example dictionary (all three label forms, keys 0 and 3) -/
 example : plain (C05.exampleTree.toCell C05.u32Pay 8) = true ∧
     (proveKey toyH 32 (C05.exampleTree.toCell C05.u32Pay 8) (Bits.natToBits 8 3)).isOk = true ∧
